@@ -67,8 +67,8 @@ package unite
 //@            || (gOutN + len(s) == gBprev && len(s) + (gB - gBprev) > gJS))
 //@   requires [C09] non-maximal-not-before-timeout: (len(s) < gJS && !gClosed
 //@            && !(gOutN + len(s) == gBprev && len(s) + (gB - gBprev) > gJS)) ==> gClock - gLastDeliv >= gTO
-//@   requires [C08] copy-shares-no-memory: !gNC ==> (!in(gOwned, s.arr) && s.arr != dsc.join.arr)
-//@   requires [C08] nothing-on-loan: gLent == 0
+//@   requires [C08 C20] copy-shares-no-memory: !gNC ==> (!in(gOwned, s.arr) && s.arr != dsc.join.arr)
+//@   requires [C08 C20] nothing-on-loan: gLent == 0
 //@   effect gOutN := gOutN + len(s)
 //@   effect gLastDeliv := gClock
 //@   effect gLent := ite(gNC, s.arr, 0)
@@ -84,13 +84,13 @@ package unite
 
 // Every write into a backing array (append in place, element assignment, copy).
 //@ event heapwrite (r)
-//@   requires [C08] never-writes-a-delivered-array: !in(gOwned, r) && r != gLent
+//@   requires [C08 C20] never-writes-a-delivered-array: !in(gOwned, r) && r != gLent
 
 //@ event call time.NewTicker (d)
 //@   requires [C10] ticker-period-is-interrupt-interval: d == dsc.interruptInterval
 
 //@ pred WFJ(dsc)
-//@   [* C03 C08 C09 C10 C11] configured-options-are-used: dsc != nil && dsc.opts.JoinSize == gJS && dsc.opts.Timeout == gTO && (dsc.opts.NoCopy <==> gNC)
+//@   [* C03 C08 C20 C09 C10 C11] configured-options-are-used: dsc != nil && dsc.opts.JoinSize == gJS && dsc.opts.Timeout == gTO && (dsc.opts.NoCopy <==> gNC)
 //@   [*] dsc != nil && gJS >= 1 && gJS < two63
 //@   [*] cap(dsc.join) == gJS && len(dsc.join) <= gJS && dsc.join.arr != 0 && allocated(dsc.join.arr)
 //@   [*] dsc.interruptInterval >= 0
@@ -109,8 +109,8 @@ package unite
 //@   [C03] forall j :: 0 <= j && j < len(item) ==> item[j] == gIn[gBprev + j]
 
 //@ pred OWN(dsc)
-//@   [C08] !in(gOwned, dsc.join.arr) && gLent == 0
-//@   [C08] forall r :: in(gOwned, r) ==> allocated(r)
+//@   [C08 C20] !in(gOwned, dsc.join.arr) && gLent == 0
+//@   [C08 C20] forall r :: in(gOwned, r) ==> allocated(r)
 
 //@ pred TIME(dsc)
 //@   [C09] gLastDeliv <= dsc.passAt && dsc.passAt <= gClock
@@ -134,14 +134,14 @@ package unite
 
 //@ func (*Discipline).prepareItem
 //@   requires [*] WFJ(dsc)
-//@   ensures [* C03 C08] gNC ==> result == item
+//@   ensures [* C03 C08 C20] gNC ==> result == item
 //@   ensures [* C03] len(result) == len(item) && (forall j :: 0 <= j && j < len(item) ==> result[j] == item[j])
-//@   ensures [C08] (!gNC && len(item) > 0) ==> fresh(result.arr)
+//@   ensures [C08 C20] (!gNC && len(item) > 0) ==> fresh(result.arr)
 
 // send delivers `item`, which is either the buffer or a pending input slice.
 //@ func (*Discipline).send
 //@   requires [*] WFJ(dsc)
-//@   requires [C03 C08] len(item) >= 1
+//@   requires [C03 C08 C20] len(item) >= 1
 //@   requires [C03] gOutN + len(item) <= gInN
 //@   requires [C03] len(item) > gJS ==> (gOutN == gBprev && gOutN + len(item) == gB)
 //@   requires [C03] forall j :: 0 <= j && j < len(item) ==> item[j] == gIn[gOutN + j]
@@ -151,24 +151,24 @@ package unite
 //@            || (gOutN + len(item) == gBprev && len(item) + (gB - gBprev) > gJS))
 //@   requires [C09] (len(item) < gJS && !gClosed
 //@            && !(gOutN + len(item) == gBprev && len(item) + (gB - gBprev) > gJS)) ==> gClock - gLastDeliv >= gTO
-//@   requires [C08] OWN(dsc)
+//@   requires [C08 C20] OWN(dsc)
 //@   modifies gOutN, gLastDeliv, gLent, gOwned, gClock
 //@   ensures [C03 C09 C11] gOutN == old(gOutN) + len(item)
 //@   ensures [C09] gLastDeliv <= gClock && gClock >= old(gClock)
-//@   ensures [C08] OWN(dsc)
+//@   ensures [C08 C20] OWN(dsc)
 
 //@ func (*Discipline).forward
 //@   requires [*] WFJ(dsc)
 //@   requires [* C03 C10 C11] len(dsc.join) == 0
 //@   requires [C03 C09 C11] PENDING(dsc, item)
-//@   requires [C03 C08 C09 C11] len(item) >= gJS
-//@   requires [C08] OWN(dsc)
+//@   requires [C03 C08 C20 C09 C11] len(item) >= gJS
+//@   requires [C08 C20] OWN(dsc)
 //@   requires [C09] TIME(dsc)
 //@   modifies dsc.passAt, gClock, gOutN, gLastDeliv, gLent, gOwned
 //@   ensures [*] WFJ(dsc)
 //@   ensures [* C03 C10] len(dsc.join) == 0
 //@   ensures [C03 C09 C11] SEQ(dsc)
-//@   ensures [C08] OWN(dsc)
+//@   ensures [C08 C20] OWN(dsc)
 //@   ensures [C09] TIME(dsc)
 
 // pass flushes the buffer. It may be called between inputs (SEQ) or with an input slice
@@ -178,7 +178,7 @@ package unite
 //@   requires [C03 C09 C11] gOutN >= 0 && gB == gInN && gBprev <= gB && (gOutN + len(dsc.join) == gB || gOutN + len(dsc.join) == gBprev)
 //@   requires [C03] forall j :: 0 <= j && j < len(dsc.join) ==> dsc.join[j] == gIn[gOutN + j]
 //@   requires [C11] (gB - gBprev >= gJS && gOutN + len(dsc.join) == gB && len(dsc.join) > 0) ==> gOutN == gBprev
-//@   requires [C08] OWN(dsc)
+//@   requires [C08 C20] OWN(dsc)
 //@   requires [C09] TIME(dsc)
 //@   requires [C09] gTO <= 0 ==> (len(dsc.join) == 0 || len(dsc.join) == gJS || gClosed
 //@            || (gOutN + len(dsc.join) == gBprev && len(dsc.join) + (gB - gBprev) > gJS))
@@ -189,27 +189,27 @@ package unite
 //@   ensures [*] WFJ(dsc)
 //@   ensures [* C03 C10 C11] len(dsc.join) == 0
 //@   ensures [C03 C09 C11] gOutN == old(gOutN) + old(len(dsc.join))
-//@   ensures [C08] OWN(dsc)
+//@   ensures [C08 C20] OWN(dsc)
 //@   ensures [C09] TIME(dsc)
 
 //@ func (*Discipline).process
 //@   requires [*] WFJ(dsc)
 //@   requires [*] len(dsc.join) < gJS
 //@   requires [C03 C09 C11] PENDING(dsc, item)
-//@   requires [C08] OWN(dsc)
+//@   requires [C08 C20] OWN(dsc)
 //@   requires [C09] TIME(dsc)
 //@   modifies dsc.join, elems(dsc.join), dsc.passAt, gClock, gOutN, gLastDeliv, gLent, gOwned
 //@   ensures [*] WFJ(dsc)
 //@   ensures [*] len(dsc.join) < gJS
 //@   ensures [C03 C09 C11] SEQ(dsc)
-//@   ensures [C08] OWN(dsc)
+//@   ensures [C08 C20] OWN(dsc)
 //@   ensures [C09] TIME(dsc)
 
 //@ pred INV(dsc)
 //@   [*] WFJ(dsc)
 //@   [*] len(dsc.join) < gJS
 //@   [C03 C09 C11] SEQ(dsc)
-//@   [C08] OWN(dsc)
+//@   [C08 C20] OWN(dsc)
 //@   [C09] TIME(dsc)
 
 //@ func (*Discipline).loop
@@ -246,7 +246,7 @@ package unite
 //@   ensures [*] (result == nil) <==> (opts.Input != nil && opts.JoinSize != 0)
 
 //@ func Opts.normalize
-//@   ensures [* C03 C08 C09 C10 C11] options-are-kept: result.Input == opts.Input && result.JoinSize == opts.JoinSize && result.NoCopy == opts.NoCopy && result.Timeout == opts.Timeout
+//@   ensures [* C03 C08 C20 C09 C10 C11] options-are-kept: result.Input == opts.Input && result.JoinSize == opts.JoinSize && result.NoCopy == opts.NoCopy && result.Timeout == opts.Timeout
 //@   ensures [* C10] result.TimeoutInaccuracy == ite(opts.TimeoutInaccuracy == 0, 25, opts.TimeoutInaccuracy)
 
 // The ghost state of a discipline that does not exist yet is empty. JoinSize and
